@@ -31,6 +31,9 @@ func runC07(c *Check) {
 	c07ClosedChecks(c, P, r)
 	c07Persisted(c, P, r)
 	c07LockHolders(c, P, r)
+	c07TeardownOrder(c, P+".O8", r)
+	c07LockOrder(c, P+".O8", r)
+	c04LookupCopy(c, P+".O2", r)
 	c07Decorator(c, P)
 }
 
@@ -460,6 +463,59 @@ func c07LockHolders(c *Check, P string, r *GCRoles) {
 	c.Report(true, P+".O8", "LOCK-HOLDERS-SCANNED", r.Close, r.Close.Pos(), "package scan", fmt.Sprintf("scanned %d functions for blocking operations under the subscribers write lock, the closed lock and the sending mutex", len(r.Funcs)))
 }
 
+// c07TeardownOrder: the teardown raises the subscription's closing signal
+// (by calling the subscription close function) before it takes the locks that
+// goroutines blocked on that subscription may hold. Shared with C05.
+func c07TeardownOrder(c *Check, id string, r *GCRoles) {
+	T := r.Teardown
+	for _, sc := range Callers([]*ssa.Function{T}, r.SubClose) {
+		held := r.LA.Held(sc)
+		_, s := held[r.idSubs]
+		_, t := held[r.idTopic]
+		c.Report(!s && !t, id, "CLOSE-SUBSCRIPTION-BEFORE-LOCKS", T, sc.Pos(), "subscription close call in the teardown",
+			"the subscription is closed (its closing signal raised) before the teardown takes the subscribers lock / topic mutex: a blocking Publish that holds them while waiting for this subscription's ack can only be released by that signal", "held: "+held.String())
+	}
+	// GoChannel.Close: a concurrent second Close must not return while the first still waits
+	Cl := r.Close
+	isWg := func(v ssa.Value) bool { f, _ := FieldOf(v); return f == r.Wg }
+	closedTrue, _ := BoolEdges(Cl, func(v ssa.Value) bool { return AllOrigins(v, IsFieldLoad(r.Closed)) })
+	for _, w := range CallsTo(Cl, nWGWait) {
+		if !isWg(Receiver(w)) {
+			continue
+		}
+		held := r.LA.Held(w)
+		serial := held[r.idClosedLock] == 'W'
+		if !serial && len(closedTrue) > 0 {
+			// alternative: the already-closed path waits too
+			serial = true
+			for _, e := range closedTrue {
+				re := ReachEdge(e, NewCut().AddInstrs(w))
+				for _, ret := range Returns(Cl) {
+					if re[ret] {
+						serial = false
+					}
+				}
+			}
+		}
+		c.Report(serial, id, "CLOSE-SERIALISED", Cl, w.Pos(), "wait for subscriptions in Close",
+			"while one Close waits for the subscriptions a concurrent Close cannot return: the closed lock is held across the wait (after Close has returned every output channel is closed)", "held: "+held.String())
+	}
+}
+
+// c07LockOrder: no two locks of the package are ever acquired in both orders.
+func c07LockOrder(c *Check, id string, r *GCRoles) {
+	es := r.LA.LockOrder()
+	conf := OrderConflicts(es)
+	for _, p := range conf {
+		c.Report(false, id, "LOCK-ORDER", p[0].Site.Parent(), p[0].Site.Pos(), "acquire "+p[0].To+" while holding "+p[0].From,
+			"two locks are acquired in both orders (deadlock when the two paths interleave)",
+			fmt.Sprintf("%s: %s held, %s acquired", c.P.Pos(p[0].Site.Pos()), p[0].From, p[0].To),
+			fmt.Sprintf("%s: %s held, %s acquired", c.P.Pos(p[1].Site.Pos()), p[1].From, p[1].To))
+	}
+	c.Report(len(conf) == 0, id, "LOCK-ORDER-ACYCLIC", r.Publish, r.Publish.Pos(), "package lock order", fmt.Sprintf("%d nested lock acquisitions examined; no pair of locks is taken in both orders", len(es)))
+	c.Floor(id, "nested lock acquisitions in package gochannel", len(es), 4)
+}
+
 // ---------------------------------------------------------------------------
 // Subscriber decorators (message/decorator.go)
 
@@ -556,6 +612,15 @@ func c07Decorator(c *Check, P string) {
 				if ok {
 					raised[sf] = true
 				}
+				// the pumps may give up forwarding only once the inner subscriber is closed: while it is
+				// still closing it may hand over messages that a reading consumer must still receive
+				okAfter := len(inner) > 0
+				for _, ic := range inner {
+					if !Dominates(cls, ic, site) {
+						okAfter = false
+					}
+				}
+				c.Report(okAfter, P+".O7", "SIGNAL-AFTER-INNER-CLOSE", cls, site.Pos(), "closing signal of the decorator", "the decorator tells its pumps to stop forwarding only after the inner subscriber's Close returned (no message handed over during the inner Close is dropped)")
 			}
 		}
 	}
